@@ -584,6 +584,17 @@ _more("C25", "Added (C25-headers-eval): one call of evhttp_parse_headers_ is eva
       "shape clauses accept a local running total that is initialised from the field and only increased.", "finite evaluation of the header-section accounting (K6)")
 _more("C11", "Added: event_reinit is evaluated with a wake-up pending at fork time (is_notify_pending=1): after a successful reinit of a notifiable base the flag is clear (found and repaired a genuine "
       "defect: the child swallowed every later cross-thread wake-up).")
+_more("C20", "Added (C20-rearm): C19's who-may-re-arm rule is part of this check — a direction whose enable slot is called while another suspension reason is left (or while it is disabled) gets its "
+      "event and its timeout back, and the timeout fires on a direction that is not running.")
+_more("C22", "Added (C22-share-eval): what one operation may move for a group member — bufferevent_get_rlim_max_ evaluated with C integer semantics over direction x group suspended x group level "
+      "(negative, zero, small, large) x members x (clipped minimum share, configured minimum share that differs) x per-operation maximum (800 cases): min(per-operation maximum, max(level/members, "
+      "clipped share)), zero while the group is suspended, never negative.", "typed finite evaluation of the per-operation grant (K6)")
+_more("C24", "Added (C24-read-resume): every store of a READING state to evcon->state in http.c is followed on every path to the function's exit by parsing the input buffer (evhttp_read_*), by "
+      "scheduling read_more_deferred_cb when the buffer is not empty (evhttp_start_read_), by the end of the exchange, or by the next state switch — a message whose bytes are already buffered "
+      "does not wait for another segment (one named exception: a freshly accepted connection).", "must-pass-through on the CFG from every state switch (K3)")
+_more("C26", "Added (C26-reply-start): evhttp_send_reply_start evaluated over caller-set Content-Length x HTTP version x body/no body x the value req->chunked held before (a chunked request body "
+      "leaves 1): Transfer-Encoding: chunked is added exactly when it should be, and req->chunked afterwards says exactly whether it was — chunk framing is never written unannounced.")
+_more("C29", "Added: escaped question marks (%3F) in the decoder domain — only a literal '?' starts the query part in the deprecated mode.")
 _more("C04", "Added (C04-evmap): the reader/writer counts of an fd are stored only after the backend accepted the add (C05's rule, run here as well) — counts stored before a failing "
       "backend add make the next add believe the fd is registered, and the backend is never told about events this property promises to deliver.")
 _more("C35", "Added: the compression-table lookup is decided by evaluation — on every table of up to three distinct names (prefixes and suffixes of one another) and seven looked-up names the "
